@@ -28,6 +28,11 @@ var (
 		{MAC: net.HardwareAddr{0x02, 0xa3, 0, 0, 0, 3}, IP: netip.MustParseAddr("fe80::a3")},
 		{MAC: net.HardwareAddr{0x02, 0xa4, 0, 0, 0, 4}, IP: netip.MustParseAddr("192.168.0.44")}, // IPv4: must be rejected
 		{MAC: net.HardwareAddr{0x02, 0xa5, 0, 0, 0, 5}, IP: netip.MustParseAddr("2001:db8::a5")}, // global: must be ignored
+		// neither link-local nor global unicast: must be ignored as well
+		{MAC: net.HardwareAddr{0x02, 0xa6, 0, 0, 0, 6}, IP: netip.MustParseAddr("ff02::1")},
+		{MAC: net.HardwareAddr{0x02, 0xa7, 0, 0, 0, 7}, IP: netip.MustParseAddr("::1")},
+		{MAC: net.HardwareAddr{0x02, 0xa8, 0, 0, 0, 8}, IP: netip.MustParseAddr("::")},
+		{MAC: net.HardwareAddr{0x02, 0xa9, 0, 0, 0, 9}, IP: netip.MustParseAddr("fd00::a9")}, // unique local
 	}
 	c14Routers = []struct {
 		mac refdec.MAC
@@ -131,7 +136,7 @@ func c14History(c *wk.Ctx, idx int64, ops []nop) (nForged int, viol bool) {
 		time.Sleep(o.Delay)
 		synctest.Wait()
 		tgt := c14Targets[o.T%len(c14Targets)]
-		if o.T >= 2*len(c14Targets) && tgt.IP.IsLinkLocalUnicast() {
+		if o.T >= 100 && tgt.IP.IsLinkLocalUnicast() {
 			// the same station under another link-local address: hunts are keyed (and idempotent) per MAC
 			tgt.IP = netip.AddrFrom16([16]byte{0xfe, 0x80, 14: 0xee, 15: byte(o.T)})
 			c.Obs("hunt_calls_with_another_address", 1)
@@ -483,17 +488,17 @@ func runC14(c *wk.Ctx) {
 		r := c.Rand("c14", i)
 		ops := make([]nop, 6+r.Intn(14))
 		for k := range ops {
-			o := nop{T: r.Intn(5), Delay: delays[r.Intn(len(delays))]}
+			o := nop{T: r.Intn(len(c14Targets)), Delay: delays[r.Intn(len(delays))]}
 			switch x := r.Intn(16); {
 			case x < 5:
 				o.K = "start"
 				if r.Intn(5) == 0 {
-					o.T += 10 // same target index (mod 5), called with another link-local address
+					o.T += 100 * len(c14Targets) // same target, called with another link-local address
 				}
 			case x < 8:
 				o.K, o.T = "stop", r.Intn(3)
 				if r.Intn(5) == 0 {
-					o.T += 10
+					o.T += 100 * len(c14Targets)
 				}
 			case x < 12:
 				o.K = "ra"
